@@ -95,6 +95,10 @@ theorem wf_remove : ∀ (f : List String) (d d' : J), wf d = true → remove d f
           · simp [pure, Except.pure] at h; subst h; exact wf_obj_iff.2 (wfKvs_insert (wf_obj_iff.1 hd) hwc)
     | _ => simp [remove] at h
 
+theorem wf_remove2 {e e' : J} {f t : List String} (he : wf e = true) (h : remove2 e f t = .ok e') : wf e' = true := by
+  obtain ⟨e1, r1, r2⟩ := remove2_ok h
+  exact wf_remove t e1 e' (wf_remove f e e1 he r1) r2
+
 theorem wf_cherrypick (src : J) (hs : wf src = true) : ∀ (fs : List (List String)) (d d' : J),
     wf d = true → cherrypick src d fs = .ok d' → wf d' = true
   | [], d, d', hd, h => by simp [cherrypick] at h; subst h; exact hd
@@ -315,13 +319,13 @@ theorem wf_progressClear : ∀ (p : ProgressCfg) (e e' : J), wf e = true → pro
     split at h1
     · cases h1
     · cases h1; exact wf_removeEmptyStanzas (wf_filterAnnotations _ he)
-  | .status f :: ls, e, e', he, h => by
+  | .status f t :: ls, e, e', he, h => by
     simp only [progressClear] at h
     obtain ⟨e1, h1, h3⟩ := bind_ok h
     refine wf_progressClear ls e1 e' ?_ h3
     simp only [clearLeaf] at h1
     obtain ⟨e0, h0, h2⟩ := bind_ok h1
-    have w0 := wf_remove f e e0 he (liftD_ok h0)
+    have w0 := wf_remove2 he (liftD_ok h0)
     cases hm : metaOK e0 with
     | false => simp [hm, throw, throwThe, MonadExceptOf.throw, bind, Except.bind] at h2
     | true =>
